@@ -11,6 +11,18 @@ REPO = os.environ.get("PYVC_REPO", "/repo")
 NATIVE_PY = "/venv/bin/python"
 
 PLANS = {
+    "C09": {
+        "level": "proof",
+        "sidecars": ["pqrformat", "driver"],
+        "extras": [],
+        "explanation": "formatting options only reach the serialiser; serialisation contracts; driver call trace",
+    },
+    "C08": {
+        "level": "proof",
+        "sidecars": ["pqrformat"],
+        "extras": [],
+        "explanation": "fixed-column and white-space PQR serialisation in the layout logic (segment lists, LIA)",
+    },
     "C01": {
         "level": "proof",
         "sidecars": ["params", "charges", "driver"],
